@@ -544,6 +544,7 @@ type vf09World struct {
 	relWhileHeld map[string]bool
 	relWhilePut  map[string]bool // ... released while a checkpoint write of theirs was held
 	lateSeen     map[string]bool
+	forgot       map[string]bool // sessions with an unanswered Interim at a restart
 }
 
 func (w *vf09World) newComponent() {
@@ -997,6 +998,9 @@ func vf09RunCase(line string, g0 int) (res string) {
 		if w.lateSeen[w.sess[j].id] {
 			x += "G"
 		}
+		if w.forgot[w.sess[j].id] {
+			x += "Q"
+		}
 		vs = append(vs, fmt.Sprintf("v%d=%s%s%s%s%s%s", j, bit(mons[j].brk), bit(mons[j].stp), bit(mons[j].mono), bit(mons[j].snt), bit(mons[j].ord), x))
 	}
 	d := "racy"
@@ -1132,6 +1136,17 @@ func (w *vf09World) exec(a []string) string {
 		w.ap.mu.Unlock()
 		w.c.ProcessAccountingBucket(b)
 	case "B":
+		// Q: the process restarts while an Interim of the session is unanswered
+		w.ap.mu.Lock()
+		for _, h := range w.ap.held {
+			if h.kind == 'I' {
+				if w.forgot == nil {
+					w.forgot = map[string]bool{}
+				}
+				w.forgot[h.sid] = true
+			}
+		}
+		w.ap.mu.Unlock()
 		w.relWhileHeld = nil
 		old := w.c
 		w.newComponent()
